@@ -75,6 +75,9 @@ def evaluate(line, res):
     if int(d["accepted"]) > int(d.get("dials", 1)):
         return ("more-than-one-accepted-connection", "the server accepted %s connections for %s dialled client session(s) (%s bytes arrived on the "
                 "extra ones): a redial was taken for a new client" % (d["accepted"], d.get("dials", 1), d["extrasrv"]))
+    if st == "truncated":
+        return ("bytes-missing", "down stream: the bridge side wrote %s bytes and closed; the client end read %s of them and then EOF: "
+                "the rest is missing (carriers=%s faults=%s)" % (d["down.w"], d["down.r"], d["carriers"], d["fired"]))
     if st in ("stalled", "hardlimit"):
         if int(d["live"]) >= 1 and int(d["quiet"]) >= STALL_MS // 2:
             return ("stalled-although-proxy-available", "no byte moved for %s ms although %s proxy process(es) were alive and nothing was "
@@ -89,10 +92,15 @@ def evaluate(line, res):
 
 # ------------------------------------------------------------------ scenario generation
 
-def line_of(sid, seed, up, down, faults, mx=2, proxies=2, stall=STALL_MS, hard=HARD_MS, second=None):
-    return "e2e run id=%s seed=%d up=%d down=%d max=%d proxies=%d stall=%d hard=%d %sfaults=%s" % (
+def line_of(sid, seed, up, down, faults, mx=2, proxies=2, stall=STALL_MS, hard=HARD_MS, second=None, srvclose=False):
+    return "e2e run id=%s seed=%d up=%d down=%d max=%d proxies=%d stall=%d hard=%d %s%sfaults=%s" % (
         sid, seed, up, down, mx, proxies, stall, hard, ("second=%d " % second) if second is not None else "",
-        ";".join(faults) if faults else "-")
+        "srvclose=1 " if srvclose else "", ";".join(faults) if faults else "-")
+
+
+# scenario kinds whose clean-tree run waits for the client's 20 s staleness timeout (or longer): they are started first so
+# that they run alongside the short ones
+SLOW = ("silent-at-open", "silent-replacement", "answer-then-close", "no-carrier-25s")
 
 
 def off(rng, size):
@@ -144,8 +152,35 @@ def gen(ctx):
     add("cut-during-redial", Q, Q, ["c0:cutu=%d" % rng.randrange(1000, 200000), "c1:cutu=%d" % rng.choice([0, 5, 6, 13, 14, 15, 22])])
     add("broker-delay", 64 * KIB, 64 * KIB, ["b0:delay=3000"])
     add("killed-before-datachannel", 64 * KIB, 64 * KIB, ["b0:killall"])
+    # ---- silent failure of the carrying proxy BEFORE the first downstream byte (own generator: the scenarios above keep
+    # their seeds). blackhole = the proxy's WebSocket to the bridge is accepted and then swallows everything, from carrier
+    # byte 0; hang = that and the proxy process frozen for good (SIGSTOP) with another proxy on offer. Nothing is closed, the
+    # data channel is open: only the client's staleness watchdog can find out, and it must run from the moment the data
+    # channel opens - for the first proxy and for a replacement that has just been put to use.
+    import random
+    r2 = random.Random(rng.randrange(1 << 30))
+    sml = lambda: r2.choice([1, 1000, 64 * KIB, 200 * KIB])
+    add("silent-at-open", sml(), sml(), ["c0:blackhole=0"], mx=r2.choice([1, 2]))
+    add("silent-at-open", sml(), sml(), ["c0:hang=0"], mx=r2.choice([1, 2]))
+    add("silent-replacement", Q, Q, ["c0:%s=%d" % (r2.choice(["cutu", "cutd", "kill", "stop"]), r2.randrange(1000, 150000)),
+                                     "c1:%s=0" % r2.choice(["blackhole", "hang"])])
+    # ---- answer-then-close: the application behind the bridge reads a request, writes its answer (up to the 256 KiB a
+    # smux stream takes without waiting) and closes its end at once - while the carrier silently swallows everything / its
+    # proxy has just been killed. The client must still read every byte (KCP retransmits through the next proxy).
+    add("answer-then-close", r2.randrange(1, 3000), r2.randrange(1, 256 * KIB), ["a:blackhole"], srvclose=True)
+    add("answer-then-close", r2.randrange(1, 3000), r2.choice([1, 1400, 100 * KIB, 256 * KIB]), ["a:hang"], srvclose=True)
+    add("answer-then-close-no-fault", r2.randrange(1, 3000), r2.randrange(1, 256 * KIB), ["a:none"], srvclose=True)
     if ctx.tier != "thorough":
+        S.sort(key=lambda x: 0 if x[1] in SLOW else 1)
         return S
+    for o in (0, 1, 14, 28, 100, 999):
+        add("silent-at-open", sml(), sml(), ["c0:%s=%d" % (r2.choice(["blackhole", "hang"]), o)], mx=r2.choice([1, 2, 3]))
+    for _ in range(3):
+        add("silent-replacement", Q, Q, ["c0:%s=%d" % (r2.choice(["cutu", "rstd", "kill", "term", "stop"]), r2.randrange(0, 200000)),
+                                         "c1:%s=%d" % (r2.choice(["blackhole", "hang"]), r2.choice([0, 0, 14, 28]))], mx=r2.choice([1, 2]), proxies=r2.choice([2, 3]))
+    for f in ("blackhole", "kill", "hang", "term", "cutd", "rstu", "stop", "freeze=0,4000", "none"):
+        add("answer-then-close", r2.randrange(1, 100000), r2.choice([0, 1, 1400, 65536, 200 * KIB, 256 * KIB]), ["a:" + f], srvclose=True)
+    add("answer-then-close", 2000, 200 * KIB, ["c0:cutu=%d" % r2.randrange(100, 1500), "a:blackhole"], srvclose=True)
     # ---- thorough tier
     M = 1024 * KIB
     add("multi-mib", 4 * M, 4 * M, [])
@@ -191,6 +226,7 @@ def gen(ctx):
         if rng.random() < 0.2:
             faults.append("b%d:%s" % (rng.randrange(0, 3), rng.choice(["lose", "delay=5000"])))
         add("random", up, down, faults, mx=rng.choice([1, 2, 2, 3]), proxies=rng.choice([1, 2, 2, 3]))
+    S.sort(key=lambda x: 0 if x[1] in SLOW else 1)
     return S
 
 
@@ -261,8 +297,11 @@ def run(ctx):
     ctx.assumptions += ["client = client/lib Transport.Dial, proxy = proxy/lib SnowflakeProxy.Start (one OS process per proxy), server = "
                         "server/lib Transport.Listen/Accept, broker = the repo's ./broker binary; all built from the tree under test",
                         "faults are injected at the proxy-server TCP connection (cut/reset after any byte offset, freeze, refuse), at the proxy "
-                        "process (SIGKILL, SIGTERM, SIGSTOP/SIGCONT, graceful Stop) and at the broker's answer to the client (lost, delayed, "
-                        "proxies killed while it is in flight); the WebRTC leg itself is not cut separately",
+                        "process (SIGKILL, SIGTERM, SIGSTOP/SIGCONT, SIGSTOP for good, graceful Stop), as a silent black hole (connection "
+                        "accepted, every byte of both directions dropped, nothing closed) from any carrier byte offset including 0, and at the "
+                        "broker's answer to the client (lost, delayed, proxies killed while it is in flight); the WebRTC leg itself is not cut separately",
+                        "answer-then-close scenarios: the bridge-side application closes its end right after writing; the bytes are the "
+                        "property, the EOF that follows is reported (down.eof) but not judged",
                         "a stream that stalls while no proxy is alive is allowed; stalled = no byte for %d s with a proxy alive and no fault for %d s" % (
                             STALL_MS // 1000, STALL_MS // 1000)]
     cases = gen(ctx)
